@@ -91,7 +91,9 @@ class BatchedMonitor(taps.Monitor):
             if outside.any():
                 ctx.fail("out_of_domain_points_not_reported", cls=cls, mech=bsk, n_outside=int(outside.sum()), n_points=int(len(outside)))
                 return
-        if r.shape != t_res.shape or r.dtype != t_res.dtype or not np.array_equal(r, t_res):
+        rounded = len(TWINS[id(t)]) > 2     # parameters that went through a parameter vector / a retarget agree up to rounding only
+        if r.shape != t_res.shape or r.dtype != t_res.dtype or (tx.maxdiff(r, t_res) > 1e-10 * max(1.0, float(np.abs(t_res).max()) if t_res.size else 1.0) if rounded
+                                                                else not np.array_equal(r, t_res)):
             e = tx.maxdiff(r, t_res)
             ctx.fail("result_differs_from_a_history_free_twin", cls=cls, mech=bsk, err=e, dtype="%s_vs_%s" % (r.dtype, np.asarray(t_res).dtype))
             return
@@ -152,6 +154,39 @@ def domain_points(rng, t, d, n, outside=0.0):
     return rng.uniform(-0.7 * tx.BOX, 0.7 * tx.BOX, (n, d))
 
 
+def reparameterise(rng, who, kind, d, old_recipe):
+    """Replace the parameters of `who`; returns the recipe of a history-free twin with the new parameters (None: not possible here)."""
+    import menpo.shape as ms
+    from menpo.transform.base import Alignment
+    from menpo.transform.piecewiseaffine.base import AbstractPWA
+    import menpo.transform as mt
+    with taps.quiet():
+        if isinstance(who, (AbstractPWA, mt.ThinPlateSplines)):
+            p = who.target.points + rng.normal(scale=0.15, size=who.target.points.shape)
+            if isinstance(who, AbstractPWA):
+                tl = np.asarray(who.source.trilist)
+                if not (np.sign(gen.tri_area2(who.source.points, tl)) == np.sign(gen.tri_area2(p, tl))).all():
+                    return None
+            who.set_target(ms.PointCloud(p.copy()))
+
+            def rec():
+                c = old_recipe()
+                c.set_target(ms.PointCloud(p.copy()))
+                return c
+            return rec
+        if not isinstance(who, mt.Homogeneous) or kind in ("TransformChain", "WithDims"):
+            return None
+        t2, recipe2 = tx.make(rng, kind, d)
+        try:
+            v = np.array(t2.as_vector())
+            who._from_vector_inplace(v) if rng.random() < 0.5 else who.from_vector_inplace(v)
+        except Exception:
+            return None
+        if tx.maxdiff(who.h_matrix, t2.h_matrix) > 1e-9 * max(1.0, float(np.abs(t2.h_matrix).max())):
+            return "drop"      # no parameter vector stands for that member (mirrored similarity ...): C05's subject, not this property's
+        return recipe2
+
+
 def w_history(ctx, rng, i):
     import menpo.shape as ms
     from menpo.transform.piecewiseaffine.base import TriangleContainmentError, AbstractPWA
@@ -173,7 +208,7 @@ def w_history(ctx, rng, i):
     for step in range(int(rng.integers(5, 31 if ctx.tier == "thorough" else 16))):
         who = live[rng.integers(0, len(live))]
         ev = ["fresh", "same_object_edited", "near_equal", "other_size", "shape", "on_copy", "repeat_values", "retry_failed",
-              "int_or_f32", "on_shared_edges"][rng.integers(0, 10)]
+              "int_or_f32", "on_shared_edges", "reparameterised"][rng.integers(0, 11)]
         n = n0
         outside = 0.35 if (is_pwa and rng.random() < 0.35) else 0.0
         if ev == "fresh" or prev is None:
@@ -193,10 +228,23 @@ def w_history(ctx, rng, i):
             x = last_failed.copy()
         elif ev == "on_copy":
             c = who.copy()
-            TWINS[id(c)] = (c, recipe)
+            TWINS[id(c)] = (c,) + tuple(TWINS[id(who)][1:])
             live.append(c)
             x = prev.copy()
             who = c
+        elif ev == "reparameterised":
+            # the transform's parameters are replaced (parameter vector / new target): from now on only the new parameters count
+            new_recipe = reparameterise(rng, who, kind, d, TWINS[id(who)][1])
+            if new_recipe == "drop":
+                TWINS.pop(id(who), None)
+                live = [o for o in live if o is not who]
+                if not live:
+                    break
+                continue
+            if new_recipe is None:
+                continue
+            TWINS[id(who)] = (who, new_recipe, "reparameterised")
+            x = prev.copy() if rng.random() < 0.6 else domain_points(rng, who, d, n, 0.0)
         elif ev == "on_shared_edges":
             if not is_pwa:
                 continue
@@ -225,7 +273,18 @@ def w_history(ctx, rng, i):
         events.add(ev)
         try:
             if ev == "shape":
-                who.apply(ms.PointCloud(x), batch_size=bs)
+                pc = ms.PointCloud(x)
+                if rng.random() < 0.6:
+                    pc.landmarks["a"] = ms.PointCloud(x[::-1].copy())
+                r1 = who.apply(pc, batch_size=bs)
+                if pc.has_landmarks:
+                    # the same shape applied again: same points, same landmarks, and the shape handed in is as it was
+                    r2 = who.apply(pc, batch_size=bs)
+                    ctx.tap("shape_applied_twice", "calls"); ctx.tap("shape_applied_twice", "checked")
+                    if tx.maxdiff(r1.points, r2.points) > 0 or tx.maxdiff(r1.landmarks["a"].points, r2.landmarks["a"].points) > 0:
+                        ctx.fail("second_application_to_the_same_shape_gives_another_result", cls=type(who).__name__, mech="landmarks" if tx.maxdiff(r1.points, r2.points) == 0 else "points")
+                    if tx.maxdiff(pc.landmarks["a"].points, x[::-1]) > 0 or tx.maxdiff(pc.points, x) > 0:
+                        ctx.fail("application_changed_the_shape_it_was_given", cls=type(who).__name__)
             else:
                 who.apply(x, batch_size=bs)
             if x.dtype == float:
@@ -286,4 +345,33 @@ def w_constrain(ctx, rng, i):
     ctx.count_case(("constrain", shp, n, bs), nontrivial=bs is not None and (shp[0] * shp[1]) % bs != 0)
 
 
-WORKLOADS = [Workload("history", w_history, quick=1500, thorough=60000), Workload("constrain", w_constrain, quick=200, thorough=6000)]
+def w_large(ctx, rng, i):
+    """Inputs far larger than anything else here (the size at which implementations start to split work internally):
+    un-batched and batched applications agree, and a failure still flags exactly the outside points, once per input point."""
+    from menpo.transform.piecewiseaffine.base import TriangleContainmentError, AbstractPWA
+    TWINS.clear()
+    kind = ["PiecewiseAffine", "PythonPWA", "ThinPlateSplines", "Affine"][i % 4]
+    t, recipe = tx.make(rng, kind, 2)
+    TWINS[id(t)] = (t, recipe)
+    is_pwa = isinstance(t, AbstractPWA)
+    n_cells = len(t.trilist) if is_pwa else (t.n_points if kind == "ThinPlateSplines" else 8)
+    n = int(1.3 * (1 << 24) / n_cells) + int(rng.integers(0, 1000))      # points x triangles (centres) well above 2**24
+    x = domain_points(rng, t, 2, 4096, 0.0)
+    x = x[rng.integers(0, len(x), n)] * (1 - 1e-3 * rng.random((n, 1)))   # distinct points; the Delaunay source mesh covers a convex region around the origin
+    mode = ["few_outside", "all_inside"][(i // 4) % 2] if is_pwa else "all_inside"
+    if mode == "few_outside":
+        k = rng.integers(0, n, 5)
+        x[k] = [2 * tx.BOX, -2 * tx.BOX]
+    try:
+        t.apply(x)                                      # judged by the tap (twin, containment mask)
+    except TriangleContainmentError:
+        pass
+    try:
+        t.apply(x, batch_size=int(rng.integers(100000, 400000)))
+    except TriangleContainmentError:
+        pass
+    ctx.count_case(("large", kind, mode), nontrivial=True, sample={"kind": kind, "n_points": n, "cells": int(n_cells), "mode": mode} if i < 4 else None)
+
+
+WORKLOADS = [Workload("history", w_history, quick=1500, thorough=60000), Workload("constrain", w_constrain, quick=200, thorough=6000),
+             Workload("large", w_large, quick=4, thorough=32)]
